@@ -771,6 +771,12 @@ impl<T: Config> UdpProtocol<T> {
             let last_recv_frame = self.last_recv_frame();
             self.recv_inputs
                 .retain(|&k, _| k >= last_recv_frame - 2 * self.max_prediction as i32);
+        } else if body.start_frame <= self.last_recv_frame() {
+            // We no longer hold the input this packet was encoded against, but it starts at a frame
+            // we have already received: the sender evidently missed our acknowledgement. Without a
+            // new one it would resend from the same start frame forever (a spectator never sends
+            // inputs that could carry a piggy-backed ack), so acknowledge again.
+            self.send_input_ack();
         }
     }
 
